@@ -913,6 +913,22 @@ def address_spellings_whole(ctx: Ctx, rep: Report, rid: str = "R01.16") -> None:
                 else:
                     near = next((g for g in groups if g and a.startswith(g)), None)
                     rep.violation(q, f"{line!r} -> groups {groups}", f"the address {a!r} is not read whole" + (f" (read as {near!r}: an earlier alternative matches a prefix of it)" if near else "") + ": the entry means another network, and what follows the address is lost or mis-assigned", where(f), inp=f"Ace({line!r})")
+        if q.endswith("extended"):
+            # the same spellings on the DESTINATION side, and references to groups whose NAME looks like an address (any word is
+            # a legal group name; the source side reads `object-group 10.0.0.0/8` as a group): a greedy filler between the two
+            # addresses lets the destination start at the LAST address-like place of the line
+            for a in spellings + ["object-group NAME", "object-group 10.0.0.0/8", "object-group NET-10.1.1.199"]:
+                for line in (f"permit ip any {a}", f"permit tcp host 1.1.1.1 eq 80 {a} eq 443 log"):
+                    m = pat.match(line)
+                    if not m:
+                        continue
+                    n += 1
+                    rep.instance()
+                    groups = [str(g or "").strip() for g in m.groups()]
+                    if a in groups:
+                        rep.ok(f"{q}: {line!r}", f"destination read as {a!r}", nontrivial=False, where=where(f))
+                    else:
+                        rep.violation(q, f"{line!r} -> groups {groups}", f"the destination {a!r} is not read whole: a part of it is taken for the source port or the address starts inside the group name - the entry is refused or means another network", where(f), inp=f"Ace({line!r})")
         if not accepted_any:
             rep.note(f"{rid} {q}: no witness line matched the assembled pattern (not judged)")
         # the largest sequence number the setters accept is read as the sequence number
